@@ -599,6 +599,12 @@ func (r *Reconciler) reconcileApply(ctx context.Context, proposal *configapi.Pro
 			targetDataModels := capabilityResponse.SupportedModels
 			modelPlugin, ok := r.pluginRegistry.GetPlugin(proposal.TargetType, proposal.TargetVersion)
 			if !ok {
+				// Update the Configuration's applied index to indicate this Proposal was applied even though it failed.
+				config.Status.Applied.Index = proposal.TransactionIndex
+				if err := r.configurations.UpdateStatus(ctx, config); err != nil {
+					log.Warnf("Failed reconciling Transaction %d Proposal to target '%s'", proposal.TransactionIndex, proposal.TargetID, err)
+					return controller.Result{}, err
+				}
 				proposal.Status.Phases.Apply.State = configapi.ProposalApplyPhase_FAILED
 				proposal.Status.Phases.Apply.Failure = &configapi.Failure{
 					Type:        configapi.Failure_INVALID,
